@@ -11,6 +11,11 @@ pub fn main() {
     let t0 = std::time::Instant::now();
     let report: Report = match engine {
         "addrsort" => crate::addrsort::run(&args),
+        "eyeballs" => crate::eyeballs::run(&args),
+        "layers" if args.replay.is_some() => crate::reqsweep::replay(&args, "layers"),
+        "sni" if args.replay.is_some() => crate::reqsweep::replay(&args, "sni"),
+        "layers" => crate::reqsweep::run_layers(&args),
+        "sni" => crate::reqsweep::run_sni(&args),
         other => {
             eprintln!("unknown engine {other}");
             std::process::exit(2);
@@ -21,6 +26,15 @@ pub fn main() {
     v["seed"] = serde_json::json!(args.seed);
     v["tier"] = serde_json::json!(if args.tier_thorough { "thorough" } else { "quick" });
     let s = serde_json::to_string_pretty(&v).unwrap();
+    if args.replay.is_some() {
+        let bad = report.props.values().any(|p| !p.violations.is_empty());
+        for (id, p) in &report.props {
+            for v in &p.violations {
+                println!("REPLAY {id} still violates: {} :: {}", v.signature, v.message);
+            }
+        }
+        std::process::exit(if bad { 1 } else { 0 });
+    }
     match &args.out {
         Some(p) => std::fs::write(p, s).expect("write out"),
         None => {
